@@ -15,8 +15,16 @@ package api
 //@ ghost dsp map[int]int
 //@ ghost spawnn int
 //@ ghost spawnfn map[int]int
+// log of notifications handed to senders (C08, C07): ntn Notify calls so far (whatever their outcome);
+// nts/ntsrc/ntdst/ntcmd[k]: sender, source address, destination address and command (as cmdKey) of the k-th call
+//@ ghost ntn int
+//@ ghost nts map[int]any
+//@ ghost ntsrc map[int]*model.FeatureAddressType
+//@ ghost ntdst map[int]*model.FeatureAddressType
+//@ ghost ntcmd map[int]int
+//@ modset NTLOG = ntn, nts, ntsrc, ntdst, ntcmd
 // everything a Publish may change (it runs the core handlers synchronously)
-//@ modset PUBLISH = evn, ev, dn, dh, dp, dsp, world, spine.Events.handlers, spawn, outmisc
+//@ modset PUBLISH = evn, ev, dn, dh, dp, dsp, world, spine.Events.handlers, spawn, outmisc, ntn, nts, ntsrc, ntdst, ntcmd
 
 // Assumed contracts of the api interfaces, used at interface call sites.
 // "pure": no side effect; the result is a function of the receiver, the arguments and the
@@ -95,7 +103,7 @@ package api
 //@   ensures result == nil ==> respAppended(self, K) && rcls[self][K] == model.CmdClassifierTypeResult && answers(self, K, requestHeader, senderAddress) && rerr[self][K] == old(err.ErrorNumber)
 //@   ensures result != nil ==> respSame && sendfails == old(sendfails) + 1
 //@   ensures result == nil ==> sendfails == old(sendfails)
-//@   modifies @RESP, outmisc, sendfails
+//@   modifies @RESP, outmisc, sendfails, @NTLOG
 
 //@ iface api.SenderInterface.ResultSuccess
 //@   requires requestHeader != nil && requestHeader.AddressDestination != nil && senderAddress != nil
@@ -103,7 +111,7 @@ package api
 //@   ensures result == nil ==> respAppended(self, K) && rcls[self][K] == model.CmdClassifierTypeResult && answers(self, K, requestHeader, senderAddress) && rerr[self][K] == model.ErrorNumberTypeNoError
 //@   ensures result != nil ==> respSame && sendfails == old(sendfails) + 1
 //@   ensures result == nil ==> sendfails == old(sendfails)
-//@   modifies @RESP, outmisc, sendfails
+//@   modifies @RESP, outmisc, sendfails, @NTLOG
 
 //@ iface api.SenderInterface.Reply
 //@   requires requestHeader != nil && requestHeader.AddressDestination != nil && senderAddress != nil
@@ -111,19 +119,11 @@ package api
 //@   ensures result == nil ==> respAppended(self, K) && rcls[self][K] == model.CmdClassifierTypeReply && answers(self, K, requestHeader, senderAddress) && rcmd[self][K] == cmd
 //@   ensures result != nil ==> respSame && sendfails == old(sendfails) + 1
 //@   ensures result == nil ==> sendfails == old(sendfails)
-//@   modifies @RESP, outmisc, sendfails
+//@   modifies @RESP, outmisc, sendfails, @NTLOG
 
 // requests and notifications are not responses
 //@ iface api.SenderInterface.Request
 //@   modifies outmisc
-// log of notifications handed to senders (C08, C07): ntn Notify calls so far (whatever their outcome);
-// nts/ntsrc/ntdst/ntcmd[k]: sender, source address, destination address and command (as cmdKey) of the k-th call
-//@ ghost ntn int
-//@ ghost nts map[int]any
-//@ ghost ntsrc map[int]*model.FeatureAddressType
-//@ ghost ntdst map[int]*model.FeatureAddressType
-//@ ghost ntcmd map[int]int
-//@ modset NTLOG = ntn, nts, ntsrc, ntdst, ntcmd
 //@ iface api.SenderInterface.Notify
 //@   ensures ntn == old(ntn) + 1 && nts == store(old(nts), old(ntn), self) && ntsrc == store(old(ntsrc), old(ntn), senderAddress) && ntdst == store(old(ntdst), old(ntn), destinationAddress) && ntcmd == store(old(ntcmd), old(ntn), cmdKey(cmd))
 //@   modifies outmisc, @NTLOG
@@ -131,17 +131,17 @@ package api
 //@ iface api.SubscriptionManagerInterface.SubscriptionsOnFeature pure
 //@   ensures forall j int :: 0 <= j && j < len(result) ==> result[j] != nil && result[j].ClientFeature != nil && result[j].ServerFeature != nil
 //@ iface api.SenderInterface.Write
-//@   modifies outmisc
+//@   modifies outmisc, @NTLOG
 //@ iface api.SenderInterface.Subscribe
-//@   modifies outmisc
+//@   modifies outmisc, @NTLOG
 //@ iface api.SenderInterface.Bind
-//@   modifies outmisc
+//@   modifies outmisc, @NTLOG
 
 //@ iface api.BindingManagerInterface.HasLocalFeatureRemoteBinding pure
 //@ iface api.OperationsInterface.Write pure const
 //@ iface api.OperationsInterface.Read pure const
 //@ iface api.FeatureLocalInterface.RequestRemoteData
-//@   modifies outmisc, held
+//@   modifies outmisc, held, @NTLOG
 
 //@ iface api.FunctionDataCmdInterface.ReplyCmdType
 //@   modifies nothing
@@ -203,7 +203,7 @@ package api
 //@   ensures setn == old(setn) + 1 && setobj == store(old(setobj), old(setn), self) && setfct == store(old(setfct), old(setn), function) && setdata == store(old(setdata), old(setn), data)
 //@   ensures spawnn >= old(spawnn) && forall d int :: old(spawnn) <= d && d < spawnn ==> spawnfn[d] == methodid("(github.com/enbility/spine-go/api.EventHandlerInterface).HandleEvent")
 //@   ensures forall d int :: d < old(spawnn) ==> spawnfn[d] == old(spawnfn)[d]
-//@   modifies @SETLOG, @PUBLISH, outmisc, world
+//@   modifies @SETLOG, @PUBLISH, outmisc, world, @NTLOG
 
 // announced operations of a function (C07): read / write are announced exactly when allowed
 //@ iface api.OperationsInterface.Information
@@ -221,7 +221,7 @@ package api
 //@ iface api.EntityLocalInterface.HeartbeatManager pure const
 //@ iface api.HeartbeatManagerInterface.SetLocalFeature
 //@   ensures hbsetn == old(hbsetn) + 1 && hbsetmgr == store(old(hbsetmgr), old(hbsetn), self) && hbsetfeat == store(old(hbsetfeat), old(hbsetn), feature)
-//@   modifies hbsetn, hbsetmgr, hbsetfeat, held, chclosed, spawn, @SETLOG, @PUBLISH, outmisc, world
+//@   modifies hbsetn, hbsetmgr, hbsetfeat, held, chclosed, spawn, @SETLOG, @PUBLISH, outmisc, world, @NTLOG
 //@ iface api.HeartbeatManagerInterface.StopHeartbeat
 //@   ensures hbstopn == old(hbstopn) + 1 && hbstopmgr == store(old(hbstopmgr), old(hbstopn), self)
 //@   modifies hbstopn, hbstopmgr, held, chclosed
@@ -231,6 +231,6 @@ package api
 //@ iface api.EntityLocalInterface.RemoveAllUseCaseSupports
 //@   modifies @PUBLISH, outmisc, world, held, @NTLOG
 //@ iface api.EntityLocalInterface.RemoveAllSubscriptions
-//@   modifies @PUBLISH, outmisc, world, held
+//@   modifies @PUBLISH, outmisc, world, held, @NTLOG
 //@ iface api.EntityLocalInterface.RemoveAllBindings
-//@   modifies @PUBLISH, outmisc, world, held
+//@   modifies @PUBLISH, outmisc, world, held, @NTLOG
